@@ -61,6 +61,14 @@ Theorem next_complete : forall mai, 1 <= mai -> forall t,
 Proof. exact next_complete_lemma. Qed.
 Print Assumptions next_complete.
 
+(* ipairs (RawGetInt from 1 upwards) yields t[1], t[2], ... and stops exactly at the first nil *)
+Theorem ipairs_prefix : forall mai t fuel i,
+  let L := ipairs_from mai t i fuel in
+  (forall j, 0 <= j < len L -> nthv L j = RawGet mai t (KInt (i + j)) /\ nthv L j <> VNil) /\
+  ((length L < fuel)%nat -> RawGet mai t (KInt (i + len L)) = VNil).
+Proof. exact ipairs_prefix_lemma. Qed.
+Print Assumptions ipairs_prefix.
+
 (* each single Next call returns a present key with its current value *)
 Theorem next_value : forall mai, 1 <= mai -> forall t cur k v,
   WF mai t -> cur_ok t cur -> Next mai t cur = NKV k v ->
